@@ -159,8 +159,32 @@ def run(P, tier="quick"):
                                        "configured precision: %s; digits the caller asked for are not written" %
                                        (e.text(), c.callee, why), c.line))
                     continue
-                # follow a parameter to the callers
                 (kind, ident), node = list(at.items())[0]
+                # the atom itself must reach the conversion unmodified: an assignment in front of the call that is not a
+                # lower clamp (`if (p < K) p = K`) caps or replaces the digits the caller asked for
+                if kind == "var":
+                    clamp = None
+                    for m in f.walk():
+                        if m.k in ("BinaryOperator", "CompoundAssignOperator") and m.op and m.op.endswith("=") and \
+                                m.op not in ("==", "!=", "<=", ">=") and m.kids[0].strip().k == "DeclRefExpr" and \
+                                m.kids[0].strip().refdecl == ident and m.line <= c.line:
+                            lower = False
+                            for a_ in m.ancestors():
+                                if a_.k == "IfStmt":
+                                    c0 = [z for z in a_.kids if z is not None][0].strip()
+                                    if c0.k == "BinaryOperator" and c0.op in ("<", "<=") and c0.kids[0].strip().k == "DeclRefExpr" and \
+                                            c0.kids[0].strip().refdecl == ident:
+                                        lower = True
+                                    break
+                            if not lower:
+                                clamp = m
+                    if clamp is not None:
+                        R.violated(Finding("R38", props, f.file, f.name, anchor,
+                                           "the precision `%s` of %s() is assigned at line %d (`%s`) before it is used: the digits the "
+                                           "caller configured are capped or replaced" % (e.text(), c.callee, clamp.line, clamp.text()[:40]),
+                                           c.line))
+                        continue
+                # follow a parameter to the callers
                 bad = None
                 seen = set()
                 work = [(f, kind, ident, node)]
